@@ -377,7 +377,8 @@ theorem goto_bound (c : ECfg S) (hv : c.variant = .main) : ∀ (fuel : Nat) (spe
     have hbody : ∀ pid l, (gotoBody c (goto c fuel) pid l).2 ≠ .error boundExhausted := by
       intro pid l
       unfold gotoBody
-      exact gotoLoop_bound c hv _ ih _ [] pid [] [] l List.nodup_nil (by simp) (by simp)
+      rw [keepCurOnError_snd]
+      exact gotoLoop_bound c hv _ ih (c.story.passages.length + 1) [] pid [] [] l List.nodup_nil (by simp) (by simp)
     have hval : ∀ e : Exc, e.kind = .valueError → e ≠ boundExhausted := by
       intro e he h; subst h; simp [boundExhausted] at he
     unfold goto
@@ -406,5 +407,61 @@ theorem goto_bound (c : ECfg S) (hv : c.variant = .main) : ∀ (fuel : Nat) (spe
                 exact absurd (by simp [bindArgs_errKind c l _ _ _ _ _ he]) hk
             · unfold withScope
               exact hbody _ _
+
+end Bardic
+
+namespace Bardic
+variable {S : Sem}
+
+theorem gotoBody_error_cur (c : ECfg S) (recur : String → Live S.V → NRes S (Output S.V)) (pid : String) (l : Live S.V)
+    (e : Exc) (h : (gotoBody c recur pid l).2 = .error e) : (gotoBody c recur pid l).1.cur = l.cur := by
+  unfold gotoBody keepCurOnError at h ⊢
+  split
+  · rfl
+  · rename_i hne
+    split at h
+    · rename_i l' e' he
+      exact absurd he (by intro hh; exact hne l' e' hh)
+    · generalize gotoLoop c recur (c.story.passages.length + 1) [] pid [] [] l = r at h hne
+      obtain ⟨l', x⟩ := r
+      cases x with
+      | error e' => exact absurd rfl (hne l' e')
+      | ok o => simp at h
+
+/-- **a navigation that fails leaves the position where it was**: whatever `goto` had entered before the failure, the
+current passage afterwards is the one whose output is still displayed (so that a displayed `-> @join` choice, `undo`,
+`save_state` … all speak about the same passage) -/
+theorem goto_failed_keeps_position (c : ECfg S) (fuel : Nat) (spec : String) (l : Live S.V) (e : Exc)
+    (h : (goto c fuel spec l).2 = .error e) : (goto c fuel spec l).1.cur = l.cur := by
+  cases fuel with
+  | zero => rfl
+  | succ fuel =>
+    unfold goto at h ⊢
+    cases hps : parseSpec spec with
+    | error e' => simp only [hps]
+    | ok pa =>
+      obtain ⟨pid, args⟩ := pa
+      simp only [hps] at h ⊢
+      cases hpp : c.story.passage? pid with
+      | none => simp only [hpp]
+      | some p =>
+        simp only [hpp] at h ⊢
+        by_cases hc : (p.params.isEmpty && args == "") = true
+        · simp only [hc, if_true] at h ⊢
+          exact gotoBody_error_cur c _ _ _ e h
+        · simp only [hc, Bool.false_eq_true, if_false] at h ⊢
+          cases hpd : parseDirectiveArgs S (evalCtx S c.cx l.vars l.scopes.head?) args with
+          | error e' => simp only [hpd]
+          | ok ad =>
+            simp only [hpd] at h ⊢
+            cases hb : bindArgs c l p.params ad 0 [] with
+            | error e' => simp only [hb]; split <;> rfl
+            | ok scope =>
+              simp only [hb] at h ⊢
+              unfold withScope at h ⊢
+              have := gotoBody_error_cur c (goto c fuel) pid { l with scopes := scope :: l.scopes } e
+              generalize gotoBody c (goto c fuel) pid { l with scopes := scope :: l.scopes } = r at h this ⊢
+              obtain ⟨l', x⟩ := r
+              exact this h
 
 end Bardic
